@@ -192,8 +192,9 @@ theorem consumed_none (m : Mon) (x : MS) (hi : MInv x) (ha : Agree m x) (c' : CS
     (hready : getOperationState x.c.tl (Id.op 0 fn args pred md.s) = .ready)
     (hdone : c'.tl.ledger (Id.op 0 fn args pred md.s) = 1)
     (hexec : x.c.executorCount ≠ 0 →
-      ∃ ex, md.e = some ex ∧ x.c.hasRole EXECUTOR ex = true ∧ AuthM.exec ex j ∈ auth) :
-    consumed m (modelObs x.c x.defs ok0 eq0) (modelObs c' x.defs true none) fn args md j auth = none ∧
+      ∃ ex, md.e = some ex ∧ x.c.hasRole EXECUTOR ex = true ∧ AuthM.exec ex j ∈ auth)
+    (chk : Bool) (hpd : chk = true → pred = Id.zero ∨ x.c.tl.ledger pred = 1) :
+    consumed m (modelObs x.c x.defs ok0 eq0) (modelObs c' x.defs true none) fn args md j auth chk = none ∧
     keyOf x.defs fn args md = some (Id.op 0 fn args pred md.s) := by
   obtain ⟨h2, hn⟩ := stateOf_ready.mp hready
   obtain ⟨l, d, mn, hg, hv, _, _, _⟩ := (hi.tl.coh _).ledger_ge_two h2
@@ -226,6 +227,28 @@ theorem consumed_none (m : Mon) (x : MS) (hi : MInv x) (ha : Agree m x) (c' : CS
       cases hx : x.defs[k]? with
       | none => rw [hx] at hkd; cases hkd
       | some dd => rw [hx] at hkd; injection hkd with hkd; exact ⟨dd, rfl, hkd⟩
+    have hddp : dd.pred = pred := by
+      unfold Operation.id at hdi
+      injection hdi
+    rw [if_neg (by
+      rintro ⟨hc, hpp⟩
+      unfold predPending at hpp
+      rw [ha.defs, hdd] at hpp
+      simp only [Bool.and_eq_true, decide_eq_true_eq] at hpp
+      obtain ⟨hnz, hnd⟩ := hpp
+      rw [hddp] at hnz hnd
+      rcases hpd hc with hz | hl1
+      · exact hnz hz
+      · apply hnd
+        rw [ha.ghost]
+        have hcoh := hi.tl.coh pred
+        cases hgp : ghost x.c.tl.log pred with
+        | unset => rw [hgp] at hcoh; simp only [Coh] at hcoh; omega
+        | done => rfl
+        | pending l' d' mm =>
+          rw [hgp] at hcoh; simp only [Coh] at hcoh
+          have : 2 ≤ satAdd l' d' := by unfold satAdd U32_MAX; split <;> omega
+          omega)]
     rw [if_neg (by
       intro hne; apply hne
       exact stCode_R.mpr ⟨dd, hdd, by rw [hdi]; exact hready⟩)]
